@@ -5,32 +5,4 @@
 #include "env/relay_env.h"
 #include "contracts/relay.h"
 
-/* The object graph xrelay_create() builds (proved by job relay.xrelay_create): one malloc'ed struct xrelay; the xfwd under
- * proof is its fwd0 (XV_DIR 0: source leg 0) or fwd1 (XV_DIR 1: source leg 1, the same two condition words crosswise).
- * Content is whatever malloc left there (ARBITRARY); only the pointer wiring is set, as xrelay_create() sets it.  At xfwd level the termination
- * callback is the environment's (xv_fwd_cb; the real one, xrelay_fwd_term, has its own job) and its cookie is the xrelay,
- * which the callback may free. */
-#ifndef XV_DIR
-#define XV_DIR 0
-#endif
-#define XV_RELAY_SETUP \
-    struct xrelay *xr = malloc(sizeof(struct xrelay)); \
-    __CPROVER_assume(xr != NULL); \
-    struct xfwd *relay = XV_DIR == 0 ? &xr->fwd0 : &xr->fwd1; \
-    xv_hold_buf = relay->data; \
-    xv_src = XV_DIR; \
-    /* pointer members are ASSIGNED (CBMC does not follow pointers that are merely assumed equal to an address) */ \
-    relay->src_conn = XV_CONN(XV_DIR); relay->dst_conn = XV_CONN(1 - XV_DIR); \
-    relay->src_condition = XV_DIR == 0 ? &xr->cond0 : &xr->cond1; \
-    relay->dst_condition = XV_DIR == 0 ? &xr->cond1 : &xr->cond0; \
-    relay->err_cb = xv_fwd_cb; relay->err_cb_data = xr
-
-/* relay-level jobs: both directions wired the way xrelay_create() does it; the user's callback is the environment's */
-#define XV_XRELAY_SETUP \
-    struct xrelay *xr = malloc(sizeof(struct xrelay)); \
-    __CPROVER_assume(xr != NULL); \
-    xr->fwd0.src_conn = XV_CONN(0); xr->fwd0.dst_conn = XV_CONN(1); xr->fwd1.src_conn = XV_CONN(1); xr->fwd1.dst_conn = XV_CONN(0); \
-    xr->fwd0.src_condition = &xr->cond0; xr->fwd0.dst_condition = &xr->cond1; \
-    xr->fwd1.src_condition = &xr->cond1; xr->fwd1.dst_condition = &xr->cond0; \
-    xr->fwd0.err_cb = xrelay_fwd_term; xr->fwd0.err_cb_data = xr; xr->fwd1.err_cb = xrelay_fwd_term; xr->fwd1.err_cb_data = xr; \
-    xr->err_cb = xv_relay_cb
+#include "_setup.h"
